@@ -96,59 +96,91 @@ def rule_R1(ctx):
     ctx.check(all(toks.get(k) == v for k, v in wantd.items()), "R1", "PseudoHeader::Display", "m / p / a / s", "pseudo-header tokens are %s" % toks, ctx.loc(db))
 
 
+FRAME_FIELDS = ("frame_type", "stream_id", "flags", "length", "payload")
+
+
+def _selections(P, b):
+    """How a function picks frames out of the frame list: [(mode, conds, block)], mode = "first" (the first frame satisfying conds is
+    used: Iterator::find, or a forward loop that returns from inside its body) or "all" (every such frame: Iterator::filter /
+    filter_map, or a forward loop that pushes).  conds are canonical conditions over the frame's fields."""
+    out = []
+    S = T.Slicer(b, P)
+    for blk, t in b.calls():
+        name = callee_of(t)
+        if name.endswith(("Iterator::find", "Iterator>::find")):
+            mode = "first"
+        elif name.endswith(("Iterator::filter", "Iterator>::filter")):
+            mode = "all"
+        else:
+            continue
+        a = Q.call_args(b, S, blk, t)
+        if T.has_call(a[0], "::rev"):
+            mode = "last" if mode == "first" else mode
+        for cs in Q.closure_result_conds(P, a[-1]):
+            out.append((mode, cs, blk))
+    # loop spelling
+    body_sites = []
+    for (db, dj, full) in S.defs().get(0, []):
+        body_sites.append(("first", db))
+    for blk, t in Q.calls(b, ["Vec::<T, A>::push", "::extend"]):
+        body_sites.append(("all", blk))
+    for mode, site in body_sites:
+        conds = Q.canon_conds(P, T.dom_conds(b, S, site))
+        for k, c in enumerate(conds):
+            if c[0] == "variant" and c[2] == "Some" and c[3] is True:
+                src = T.strip(c[1])
+                if src[0] == "call" and src[1].endswith("::next") and "slice::Iter" in src[1] and not T.has_call(src, "::rev"):
+                    out.append((mode, conds[k + 1:], site))
+                    break
+    return out
+
+
+def _frame_field(c, name):
+    """is the quantity tested by condition c the frame's field `name` itself (not a value computed from it by a call)?"""
+    terms = [c[1]] if c[0] in ("variant", "variant_in", "bool") else [c[2], c[3]] if c[0] == "cmp" else []
+    def direct(y):
+        y = T.strip(y)
+        if y[0] == "field":
+            return y[2] == name or direct(y[1])
+        if y[0] == "deref":
+            return direct(y[1])
+        if y[0] in ("ref", "cast"):
+            return direct(y[2])
+        if y[0] == "binop":
+            return direct(y[2]) or direct(y[3])
+        if y[0] == "unop":
+            return direct(y[2])
+        if y[0] == "downcast":
+            return direct(y[1])
+        if y[0] == "call" and T.is_identity_call(y[1]) and y[2]:
+            return direct(y[2][0])
+        return False
+    return any(direct(y) for y in terms)
+
+
 def _selector(ctx, P, fn, want_type, sid_rel, combinator, inst):
     b = P.body(AE + fn)
-    S = T.Slicer(b, P)
-    cs = Q.calls(b, "Iterator::" + combinator)
-    ctx.check(len(cs) >= 1, "R2", inst + ":combinator", "uses Iterator::%s" % combinator,
-              "%s does not select frames with Iterator::%s (first vs all semantics)" % (fn, combinator), ctx.loc(b))
-    if not cs:
+    want_mode = "first" if combinator == "find" else "all"
+    sels = [(m, cs, blk) for (m, cs, blk) in _selections(P, b) if any(_frame_field(c, "frame_type") for c in cs)]
+    modes = {m for m, _, _ in sels}
+    ctx.check(modes == {want_mode}, "R2", inst + ":combinator", "%s matching frame(s) used (%s)" % (want_mode, combinator),
+              "%s does not select frames with Iterator::%s (first vs all semantics): found %s" % (fn, combinator, sorted(modes) or "no selection by frame type"), ctx.loc(b))
+    if not sels:
         return
-    blk, t = cs[0]
-    a = Q.call_args(b, S, blk, t)
-    cl = T.strip(a[1])
-    if not (cl[0] == "agg" and cl[1] == "closure" and cl[2] in P.bodies):
-        ctx.cannot("R2", inst + ":predicate", "selector closure not found", ctx.loc(b, blk))
-        return
-    cb = P.bodies[cl[2]]
-    rows = D.decision_rows(P, cb)
-    # evaluate: accept iff type == want_type (and stream-id relation)
     ok = True
-    seen_type = False
-    for r in rows or []:
-        tys = [c for c in r.conds if c[0] == "variant" and any(x[0] == "field" and x[2] == "frame_type" for x in T.walk(c[1]))]
-        ret = T.strip(r.ret)
-        if tys:
-            seen_type = True
-            c = tys[0]
-            is_type = (c[2] == want_type) == c[3]
-            if c[2] != want_type:
-                ok = False
-            if not is_type:
-                ok = ok and ret[0] == "const" and ret[1] is False
-            else:
-                if sid_rel is None:
-                    ok = ok and ret[0] == "const" and ret[1] is True
-                else:
-                    good = ret[0] == "binop" and ret[1] == sid_rel and T.fold_int(ret[3]) == 0 and any(x[0] == "field" and x[2] == "stream_id" for x in T.walk(ret[2]))
-                    ok = ok and good
+    for (m, cs, blk) in sels:
+        ty = [c for c in cs if c[0] == "variant" and _frame_field(c, "frame_type")]
+        type_ok = any(c[2] == want_type and c[3] is True for c in ty) and not any(c[2] != want_type and c[3] is True for c in ty)
+        sid = [c for c in cs if c[0] == "cmp" and _frame_field(c, "stream_id")]
+        if sid_rel is None:
+            sid_ok = not sid
         else:
-            # single-expression closure: `f.frame_type == X`
-            if ret[0] == "call" and ret[1].endswith("::eq"):
-                v = None
-                for x in ret[2]:
-                    xx = T.strip(x)
-                    if xx[0] == "agg" and not xx[4]:
-                        v = xx[3]
-                    elif xx[0] == "const":
-                        v = T.enum_variant_of_const(P, xx)
-                seen_type = True
-                ok = ok and v == want_type and sid_rel is None
-            else:
-                ok = False
-    ctx.check(ok and seen_type, "R2", inst + ":predicate",
+            sid_ok = len(sid) == 1 and T.fold_int(sid[0][3]) == 0 and (sid[0][1] == "Eq" if sid_rel == "Eq" else sid[0][1] in ("Gt", "Ne"))
+        extra = [c for c in cs if c not in ty and c not in sid and any(_frame_field(c, f) for f in ("flags", "length", "frame_type", "stream_id"))]
+        ok = ok and type_ok and sid_ok and not extra
+    ctx.check(ok, "R2", inst + ":predicate",
               "frame_type == %s%s" % (want_type, "" if sid_rel is None else (" && stream_id %s 0" % {"Eq": "==", "Gt": ">"}[sid_rel])),
-              "selector predicate of %s is not `type == %s%s`" % (fn, want_type, "" if sid_rel is None else " && stream_id %s 0" % sid_rel), ctx.loc(cb))
+              "selector predicate of %s is not `type == %s%s`" % (fn, want_type, "" if sid_rel is None else " && stream_id %s 0" % sid_rel), ctx.loc(b, sels[0][2]))
 
 
 def rule_R2(ctx):
@@ -221,7 +253,8 @@ def rule_R2(ctx):
     gb = P.method1("AkamaiFingerprint", "generate_fingerprint_string")
     SG = T.Slicer(gb, P)
     fmts = []
-    for cb in [gb] + P.closures_of(gb.path):
+    from ..engine import lists as L
+    for cb in L.with_callables(P, gb):
         SC = T.Slicer(cb, P)
         for blk, t in Q.calls(cb, "fmt::format"):
             a = Q.call_args(cb, SC, blk, t)
